@@ -157,6 +157,39 @@ class External:
         self.pure = pure
 
 
+class TupleOf(T):
+    """A fixed-arity tuple (as an element of symbolic sequences)."""
+    def __init__(self, *elems: T) -> None:
+        self.elems = elems
+
+    def __repr__(self) -> str:
+        return "TupleOf(" + ", ".join(map(repr, self.elems)) + ")"
+
+
+class Union(T):
+    """Element of one of several record types (for sequences holding objects of different classes)."""
+    def __init__(self, *alts: T) -> None:
+        self.alts = alts
+
+    def __repr__(self) -> str:
+        return "Union(" + ", ".join(map(repr, self.alts)) + ")"
+
+
+class Recurrence:
+    """A ghost function defined by recursion over a natural number:
+           R(0, *params) = init(*params);   R(k + 1, *params) = step(R(k, *params), k, *params)
+    Natively it is evaluated by iteration. Symbolically it is an uninterpreted function whose defining
+    equations are instantiated at every index at which it is used (no induction is assumed)."""
+    def __init__(self, name: str, init: Callable, step: Callable, returns: T) -> None:
+        self.name, self.init, self.step, self.returns = name, init, step, returns
+
+    def __call__(self, k: int, *params: Any) -> Any:
+        value = self.init(*params)
+        for j in range(k):
+            value = self.step(value, j, *params)
+        return value
+
+
 class Loop:
     """Loop contract. `invariant` is a spec-style function whose parameter names are looked up
     among: the function's locals at the loop head, the function's parameters, the ghost index
